@@ -91,6 +91,13 @@ func (ioc *IO) Register(slot *internal.Slot) {
 }
 
 func (ioc *IO) Deregister(slot *internal.Slot) {
+	if slot.Events != 0 {
+		// Another operation on this slot is still registered with the poller - for instance a deferred write when the
+		// read completes. The kernel still holds a pointer to the slot, so the owning object must stay reachable until
+		// that operation completes, is cancelled or the object is closed.
+		return
+	}
+
 	if slot.Fd >= len(ioc.pending.static) {
 		delete(ioc.pending.dynamic, slot.Fd)
 	} else {
